@@ -42,3 +42,70 @@ pub fn c18_q_builtin_depth_guard() {
     kani::cover!(depth == 1001, "reach just over the limit");
     std::mem::forget(heap);
 }
+
+// ---- propagation: the depth a callee receives does not depend on what the call is wrapped in ----
+// FunctionDef::call is replaced by a recorder (util::stub_function_def_call_record_depth).  For a
+// symbolic depth d the bare call `x into abs` and the wrapped call are both evaluated at depth d; the
+// callee must see the same depth in both, so conditionals, do-blocks, operators, list elements and
+// the via/into/where operators neither consume nor skip call depth.  Differential on purpose: a
+// refactoring that moves the increment (call site vs callee) changes both sides alike.
+macro_rules! c18_propagation {
+    ($name:ident, $unwind:literal, |$x:ident, $c:ident| $wrapped:expr) => {
+        #[cfg(kani)]
+        #[kani::proof]
+        #[kani::unwind($unwind)]
+        #[kani::stub(std::hash::RandomState::new, crate::util::stub_random_state_new)]
+        #[kani::stub(alloc::alloc::dealloc, crate::util::stub_dealloc)]
+        #[kani::stub(alloc::alloc::dealloc_nonnull, crate::util::stub_dealloc_nonnull)]
+        #[kani::stub(alloc::alloc::realloc, crate::util::stub_realloc)]
+        #[kani::stub(alloc::alloc::realloc_nonnull, crate::util::stub_realloc_nonnull)]
+        #[kani::stub(std::backtrace::Backtrace::capture, crate::util::stub_backtrace_capture)]
+        #[kani::stub(alloc::fmt::format, crate::util::stub_format)]
+        #[kani::stub(blots_core::values::Value::stringify, crate::util::stub_stringify)]
+        #[kani::stub(blots_core::units::convert, crate::util::stub_units_convert)]
+        #[kani::stub(::anyhow::Error::msg, crate::util::stub_anyhow_msg_panic)]
+        #[kani::stub(::anyhow::__private::format_err, crate::util::stub_anyhow_format_err_panic)]
+        #[kani::stub(std::time::Instant::now, crate::util::stub_instant_now)]
+        #[kani::stub(std::sync::Mutex::lock, crate::util::stub_mutex_lock)]
+        #[kani::stub(blots_core::functions::FunctionDef::call, crate::util::stub_function_def_call_record_depth)]
+        pub fn $name() {
+            let d: usize = kani::any();
+            kani::assume(d < usize::MAX - 8);
+            let x: f64 = kani::any();
+            let c: bool = kani::any();
+            let heap = arena::heap();
+            let bare = sp(abs_call(x));
+            let r0 = evaluate_ast(&bare, heap.clone(), arena::env(), d, src());
+            let (seen_bare, calls0) = unsafe { (DEPTH_SEEN, CALLS_SEEN) };
+            assert!(r0.is_ok() && calls0 == CALLS_SEEN_BASE + 1);
+            // (built in place: a call through a `fn` pointer would make CBMC consider every
+            // function of that type, i.e. every wrapper shape of this file, in every harness)
+            let ($x, $c): (f64, bool) = (x, c);
+            let wrapped: SpannedExpr = $wrapped;
+            let r1 = evaluate_ast(&wrapped, heap.clone(), arena::env(), d, src());
+            let (seen_wrapped, calls1) = unsafe { (DEPTH_SEEN, CALLS_SEEN) };
+            assert!(r1.is_ok() && calls1 == CALLS_SEEN_BASE + 2);
+            assert!(seen_wrapped == seen_bare);
+            kani::cover!(d == 1000, "at the limit");
+            kani::cover!(d == 0, "top level");
+            std::mem::forget((bare, wrapped));
+            std::mem::forget(heap);
+        }
+    };
+}
+/// the call every wrapper contains: `x into abs` (the Call arm `abs(x)` of evaluate_ast does not
+/// finish under CBMC even with the callee stubbed - see DESIGN section 2 - so `into` is the call form)
+fn abs_call(x: f64) -> Expr {
+    arena::binop_e(BinaryOp::Into, num(x), Expr::BuiltIn(BuiltInFunction::Abs))
+}
+c18_propagation!(c18_q_depth_through_conditional, 6, |x, c| sp(Expr::Conditional {
+    condition: arena::bx(Expr::Bool(c)),
+    then_expr: arena::bx(abs_call(x)),
+    else_expr: arena::bx(abs_call(x)),
+}));
+c18_propagation!(c18_t_depth_through_operator, 6, |x, c| arena::binop(BinaryOp::Coalesce, abs_call(x), num(1.0)));
+c18_propagation!(c18_t_depth_through_list_element, 6, |x, c| sp(arena::list1(abs_call(x))));
+c18_propagation!(c18_q_depth_through_via, 6, |x, c| arena::binop(BinaryOp::Via, num(x), Expr::BuiltIn(BuiltInFunction::Abs)));
+c18_propagation!(c18_t_depth_through_where, 6, |x, c| arena::binop(BinaryOp::Where, arena::list1(num(x)), Expr::BuiltIn(BuiltInFunction::Abs)));
+// do-block wrappers (Environment::extend + drop of the block scope) did not finish in 20 min and are
+// not registered; the conditional harness above decides the same `call_depth` plumbing pattern.
